@@ -69,6 +69,12 @@ func (s *Server) Listen() (string, error) {
 				return
 			}
 			s.mu.Lock()
+			if s.closed {
+				// tombstone: the port stays taken (see Close) and late callers are hung up on at once
+				s.mu.Unlock()
+				c.Close()
+				continue
+			}
 			s.nconn++
 			id := s.nconn
 			s.conns = append(s.conns, c)
@@ -79,13 +85,24 @@ func (s *Server) Listen() (string, error) {
 	return ln.Addr().String(), nil
 }
 
+// Close ends the scripted source: every connection is closed and no new one is served.  The listening
+// socket itself is kept until the process exits ("tombstone"): the tool's reconnect loop keeps dialling
+// the address of a vanished source once per second for ever, and a freed port could be handed to another
+// listener of this or another process, which would then receive that stray PSYNC.  A late caller is
+// accepted and hung up on, which ends the stray syncer (its handshake aborts).
 func (s *Server) Close() {
 	s.mu.Lock()
 	s.closed = true
 	for _, c := range s.conns {
 		c.Close()
 	}
+	s.conns = nil
 	s.mu.Unlock()
+}
+
+// Shutdown also releases the port.
+func (s *Server) Shutdown() {
+	s.Close()
 	s.ln.Close()
 }
 
